@@ -273,6 +273,9 @@ Monitor(P, m, m2) ==
       m3 == [m2 EXCEPT !.fl = seq]
   IN
   IF HasF(i, "ent") /\ i.ent /\ m.fl THEN [m3 EXCEPT !.mv = "FALLTHROUGH"]
+  \* a plain jump (not a call, not a tail call out of another function) lands on a function's entry label
+  ELSE IF i.op = "j" /\ ~HasF(i, "cal") /\ ~HasF(i, "tc") /\ m2.st = "run" /\ m2.pc < Len(P)
+          /\ HasF(P[m2.pc + 1], "ent") /\ P[m2.pc + 1].ent THEN [m3 EXCEPT !.mv = "ENTERED_WITHOUT_CALL"]
   ELSE IF HasF(i, "cal") /\ m2.pc # m.pc + 1 THEN
        \* a taken call
        LET spv == m.reg[SP]
